@@ -48,17 +48,6 @@ static struct nv_csearch nv_cs_make(const struct nv_function* f)
   c.m_point.m_t = 1.0; c.m_point.m_status = NVE_csearch_status_failed; c.m_point.m_y = nv_vec_fresh(); c.m_point.m_gy = nv_vec_fresh(); c.m_point.m_fy = 0.0;
   return c;
 }
-/* solver_state_t::update(x, gx, fx) (src/solver/state.cpp): the triple is stored as given, counters refreshed, returns valid() */
-static _Bool nv_state_update3(struct nv_state* s, const struct nv_vec* x, const struct nv_vec* g, double fx)
-{
-  s->ver = x->id; s->m_fx = fx; s->xfin = x->fin;
-  s->fx_ver = NV_SAME(fx, x->fval) ? x->id : 0;
-  s->eval_ver = (NV_SAME(fx, x->fval) && g->grad_of == x->id) ? x->id : 0;
-  s->valid = nv_nondet__Bool(); __CPROVER_assume(!s->valid || (NV_ISFIN(s->m_fx) && s->xfin));
-  s->gtest = nv_nondet_double();
-  nv_state_update_calls(s);
-  return s->valid;
-}
 /* nesterov_sequence_t::update(z): a new point computed from z and the sequence's history */
 struct nv_vec nv_seq_x;
 static struct nv_vec* nv_seq_update(void) { nv_seq_x = nv_vec_fresh(); return &nv_seq_x; }
